@@ -31,7 +31,7 @@ type pairLE struct {
 	C [2]uint8
 }
 
-var encKinds = []string{"i8", "i16", "i32", "i64", "u16", "u32", "u64", "int", "str16", "bytes3", "structle", "structbe", "bytes64", "bytes1k", "str16long", "userenc"}
+var encKinds = []string{"i8", "i16", "i32", "i64", "u16", "u32", "u64", "int", "str16", "bytes3", "structle", "structbe", "bytes64", "bytes1k", "str16long", "userenc", "dummy"}
 
 // userEnc is an Encoder supplied by the "user" (the harness), not one of
 // slim's own: variable width, one length byte followed by the payload, and
@@ -112,6 +112,8 @@ func encoderOf(kind string) encode.Encoder {
 		return encode.Int{}
 	case "userenc":
 		return userEnc{}
+	case "dummy":
+		return encode.Dummy{}
 	case "str16", "str16long":
 		return encode.String16{}
 	case "bytes3", "bytes64", "bytes1k":
@@ -225,6 +227,13 @@ func valuesOf(kind string, ids []int64, extra int) interface{} {
 			if x%7 == 3 {
 				v[i] = "" // zero-length payload (2-byte encoding)
 			}
+		}
+		return v[:n]
+	case "dummy":
+		// every value encodes to nothing: with de-duplication on, only the first key is retained
+		v := make([]int32, n+extra)
+		for i := range v {
+			v[i] = int32(id(i))
 		}
 		return v[:n]
 	case "userenc":
